@@ -27,7 +27,7 @@ package keygen
 //@   loop 3: invariant[C08,C02] each(r.Helper.partyIDs[:rangeindex+1], j, indom(PublicData, j) && PublicData[j] != nil && fresh(PublicData[j]) && ptval(PublicData[j].ECDSA) == ite(r.PreviousPublicSharesECDSA != nil, p_add(evalpt(ShamirPublicPolynomial, idsc(j)), old(ptval(r.PreviousPublicSharesECDSA[j]))), evalpt(ShamirPublicPolynomial, idsc(j))))
 
 // ---- round state invariants (established by the start function / the previous Finalize)
-//@ pred khok(h *round.Helper) := h != nil && h.hash != nil && h.hash.h != nil && h.info.Group != nil && !held(h.mtx)
+//@ pred khok(h *round.Helper) := h != nil && h.hash != nil && h.hash.h != nil && h.info.Group != nil && typeis(h.info.Group, curve.Secp256k1) && !held(h.mtx)
 //@ pred k1ok(r *round1) := r != nil && khok(r.Helper) && r.VSSSecret != nil && r.VSSSecret.group != nil && len(r.VSSSecret.coefficients) > 0 && r.VSSSecret.coefficients[0] != nil
 //@ pred k2ok(r *round2) := r != nil && k1ok(r.round1) && r.VSSPolynomials != nil && r.Commitments != nil && r.RIDs != nil && r.ChainKeys != nil && r.ShareReceived != nil && r.ElGamalPublic != nil && r.PaillierPublic != nil && r.Pedersen != nil && r.RIDs != r.ChainKeys
 //@ pred k3ok(r *round3) := r != nil && k2ok(r.round2) && r.SchnorrCommitments != nil
@@ -55,3 +55,51 @@ package keygen
 //@   ensures[C03] result == nil ==> r.ElGamalPublic[msg.From] == body.ElGamalPublic
 //@   ensures[C03] result == nil ==> (r.PaillierPublic[msg.From] != nil && natval(r.PaillierPublic[msg.From].nNat) == natval(body.N) && r.Pedersen[msg.From] != nil && r.Pedersen[msg.From].s == body.S && r.Pedersen[msg.From].t == body.T)
 //@   assert_at[C03,C19] Decommit "Decommit(r.Commitments[from], body.Decommitment,": arg1 == r.Commitments[msg.From] && arg2 == body.Decommitment && len(arg3) == 8
+
+// ---- the other message handlers of key generation / refresh (C05, C03)
+//@ pred k4ok(r *round4) := r != nil && k3ok(r.round3) && r.PaillierSecret != nil
+//@ pred kparty(r *round2, j party.ID) := pkok(r.PaillierPublic[j]) && pkvals(r.PaillierPublic[j]) && pkbig(r.PaillierPublic[j]) && pedok(r.Pedersen[j])
+//@ pred dec_kb5(b *broadcast5) := b.SchnorrResponse != nil ==> shapedResp(b.SchnorrResponse)
+
+// Round 2: a commitment is stored only if it has the right length, and exactly as sent.
+//@ func (*round2).StoreBroadcastMessage
+//@   nopanic[C05]
+//@   requires k2ok(r) && msg.Content != nil
+//@   let body = msg.Content.(*broadcast2)
+//@   ensures[C03,C19] result == nil ==> typeis(msg.Content, *broadcast2) && body != nil && len(body.Commitment) == 64 && r.Commitments[msg.From] == body.Commitment
+
+// Round 4 broadcast: the modulus and Pedersen-parameter proofs are verified against the SENDER's stored parameters.
+//@ func (*round4).StoreBroadcastMessage
+//@   nopanic[C05]
+//@   requires k4ok(r) && msg.Content != nil && kparty(r.round2, msg.From)
+//@   let body = msg.Content.(*broadcast4)
+//@   ensures[C03] result == nil ==> typeis(msg.Content, *broadcast4) && body != nil && lastresult(Verify)
+//@   assert_at[C03] Verify "if !body.Mod.Verify(zkmod.Public{N: r.Pedersen[from].N()}, r.HashForID(from), r.Pool) {": arg1.N == r.Pedersen[msg.From].n.Modulus
+//@   assert_at[C03] Verify "if !body.Prm.Verify(zkprm.Public{Aux: r.Pedersen[from]}, r.HashForID(from), r.Pool) {": arg1.Aux == r.Pedersen[msg.From] && called(Verify)
+
+// Round 4 message: the share ciphertext is valid under the RECIPIENT's key and the factorisation proof is for the sender's
+// modulus with the recipient's auxiliary parameters.
+//@ func (*round4).VerifyMessage
+//@   nopanic[C05]
+//@   requires k4ok(r) && msg.Content != nil && kparty(r.round2, msg.From) && kparty(r.round2, msg.To)
+//@   let body = msg.Content.(*message4)
+//@   ensures[C03] result == nil ==> typeis(msg.Content, *message4) && body != nil && body.Share != nil && lastresult(Verify)
+//@   assert_at[C03] Verify "if !body.Fac.Verify(zkfac.Public{N: r.PaillierPublic[from].N(), Aux: r.Pedersen[msg.To]}, r.HashForID(from)) {": arg1.N == r.PaillierPublic[msg.From].n.Modulus && arg1.Aux == r.Pedersen[msg.To] && lastresult(ValidateCiphertexts)
+
+// Round 5: the Schnorr response is verified against the sender's NEW public share and the commitment it sent in round 3.
+//@ func (*round5).StoreBroadcastMessage
+//@   nopanic[C05]
+//@   requires r != nil && k4ok(r.round4) && r.UpdatedConfig != nil && r.UpdatedConfig.Public != nil && msg.Content != nil && (typeis(msg.Content, *broadcast5) ==> (msg.Content.(*broadcast5) != nil ==> dec_kb5(msg.Content.(*broadcast5))))
+//@   requires r.UpdatedConfig.Public[msg.From] != nil && r.UpdatedConfig.Public[msg.From].ECDSA != nil && r.SchnorrCommitments[msg.From] != nil && shapedComm(r.SchnorrCommitments[msg.From])
+//@   let body = msg.Content.(*broadcast5)
+//@   ensures[C03,C02] result == nil ==> typeis(msg.Content, *broadcast5) && body != nil && lastresult(Verify)
+//@   assert_at[C03,C02] Verify "if !body.SchnorrResponse.Verify(r.HashForID(from),": arg2 == r.UpdatedConfig.Public[msg.From].ECDSA && arg3 == r.SchnorrCommitments[msg.From] && lastresult(IsValid)
+
+// Round 4 store (after VerifyMessage accepted): the decrypted share is stored only if it is a canonical scalar and
+// lies on the sender's committed polynomial at OUR identifier (Feldman check, C02/C03).
+//@ func (*round4).StoreMessage
+//@   nopanic[C05]
+//@   requires k4ok(r) && typeis(msg.Content, *message4) && msg.Content.(*message4) != nil
+//@   requires r.PaillierSecret.PublicKey != nil && pkok(r.PaillierSecret.PublicKey) && pkvals(r.PaillierSecret.PublicKey) && r.PaillierSecret.phi != nil && r.PaillierSecret.phiInv != nil
+//@   requires r.VSSPolynomials[msg.From] != nil && expok(r.VSSPolynomials[msg.From])
+//@   ensures[C03,C02] result == nil ==> (r.ShareReceived[msg.From] != nil && act(scval(r.ShareReceived[msg.From]), gen()) == evalpt(r.VSSPolynomials[msg.From], idsc(r.Helper.info.SelfID)))
